@@ -3,7 +3,7 @@
    translated from /repo/billiard/pool.py on this run. *)
 From Coq Require Import ZArith List Bool.
 From BV Require Import Lib.PyVal Gen.K_laxsem Model.LaxSem Proofs.LaxSemProofs.
-From BV Require Gen.G_pool_shape Model.Pool Proofs.PoolSup Gen.G_laxsem_atomic.
+From BV Require Gen.G_pool_shape Model.Pool Proofs.PoolSup Proofs.PoolSem Gen.G_laxsem_atomic.
 Import ListNotations.
 Open Scope Z_scope.
 
@@ -78,6 +78,17 @@ Theorem C10_pool_code_shape :
   G_pool_shape.one_slot_per_reaped_worker = true.
 Proof. repeat split; reflexivity. Qed.
 Print Assumptions C10_pool_code_shape.
+
+(* ... and its bound IS the configured pool size (as adjusted by grow and shrink): the number
+   of free slots never exceeds the size *)
+Theorem C10_slots_match_pool_size : forall c tr,
+    0 <= Pool.c_n c -> PoolSem.grows_nonneg tr ->
+    let s := Pool.run c tr in
+    LaxSem.bound (Pool.sem s) = Pool.nprocs s
+    /\ 0 <= LaxSem.value (Pool.sem s) <= Pool.nprocs s + LaxSem.pending (Pool.sem s)
+    /\ (LaxSem.pending (Pool.sem s) = 0 -> LaxSem.value (Pool.sem s) <= Pool.nprocs s).
+Proof. exact PoolSem.slots_match_size. Qed.
+Print Assumptions C10_slots_match_pool_size.
 
 Example C10_witness :
   srun (sem_init 2) [Acquire; Acquire; Acquire; Release; Release; Release; ShrinkStart; ShrinkFinish; Grow; Clear]
